@@ -37,7 +37,7 @@ ASSUMPTIONS = [
     "attribute values never contain ' href=' or '>'",
     "whitespace between attributes = HTML whitespace (space, tab, LF, FF, CR); U+00A0 / U+2003 / U+2028 are not separators, so "
     "'<a\\xa0href=..>' is not an anchor with an href and an unquoted value continues through them",
-    "followable href = non-empty, not starting with '#', and if it contains ':' it must start with http(s)://; resolution = urllib.parse.urljoin",
+    "followable href = non-empty, not starting with '#', no scheme other than http(s); a ':' behind the first '/', '?' or '#' leaves the decision to should_follow_href; resolution = urllib.parse.urljoin",
     "links are filtered with ural's own is_url (property C16) and canonicalized with ural's canonicalize_url (C01/C02)",
 ]
 
@@ -49,7 +49,14 @@ def ref_follow(href):
     if not h or h.startswith("#"):
         return False
     if ":" in h:
-        return bool(HTTP.match(h))
+        if HTTP.match(h):
+            return True
+        if re.match(r"^[^/?#]*:", h):
+            return False          # a scheme other than http(s) ('javascript:', 'mailto:', 'tel:')
+        # a colon *behind* the first '/', '?' or '#' ('/wiki/Category:Physics', '//host:8080/x') is no scheme; whether such a href is followed is
+        # what should_follow_href says (the statement makes it the authority, it does not list those hrefs)
+        from ural import should_follow_href
+        return bool(should_follow_href(h))
     return True
 
 
